@@ -11,8 +11,8 @@
 // from the property statement: signed comparison around (p-1)/2, integer division with 0 for a zero
 // divisor, shifts and bitwise operators masked to 254 bits and reduced modulo p, result canonical.
 // Clauses are selected by a symbolic `which`, so a failing clause never hides a sibling clause.
-// Obligations are `kani::assert(cond, "<function>/<clause>")` (Kani prints the `assert!` macro's message
-// with its quotes, which tools/kani_unit.py does not recognise as an obligation name).
+// Obligations are `kani::assert(cond, "<function>/<clause>")` (same meaning as `assert!`; Kani prints its
+// message without the surrounding quotes that it adds to `assert!` messages).
 // Harnesses that reach ruint's Knuth division (add_mod's `reduce_mod`, `/`, `%`) use unwind 6 (every loop
 // there is bounded by the 4 limbs) with `--unwindset memcmp.0:34` from units.json for the 32-byte `==`.
 #[cfg(kani)]
